@@ -1,8 +1,14 @@
 """C01 - speciation results satisfy the database's equilibrium and balance equations.
 
-Oracle = independent evaluation of the database *text* (vp/dbparse.py, vp/formula.py): every aqueous species' mass-action
-equation as written in the database with a Python log K(T), LK_SPECIES/LK_PHASE read-outs, element / charge / ionic-strength /
-alkalinity sums over the species distribution, input totals after unit conversion, and the mutual consistency of the read-outs.
+Oracle = independent evaluation of the database *text* (vp/dbparse.py, vp/formula.py); one clause per sentence of the property:
+  mass_action        every aqueous species' equation as written in the database, with a Python log K(T) (1e-9 log units)
+  lk_species/lk_phase  LK_SPECIES / LK_PHASE read-outs = that Python log K(T)
+  element_total, charge_balance, ionic_strength, alkalinity
+                     sums over the reported species distribution = every reported value (BASIC read-out and built-in column), rel 1e-7
+  pH, la_lm_lg, mol_lm, saturation_index, saturation_ratio, builtin_vs_basic, readout
+                     pH = -LA(H+), LA = LM + LG, MOL = 10^LM, SI = sum(nu*LA) - log K(T), SR = 10^SI, -molalities/-activities/
+                     -saturation_indices columns = BASIC read-outs
+Nothing else is asserted (in particular not the relation between the SOLUTION input and the totals: unit conversion is C15's).
 """
 import math, re, hashlib, os
 from hypothesis import strategies as st
@@ -12,26 +18,34 @@ from ..core import Violation, Discard
 ID = "C01"
 LEVEL = "exploration"
 RULE = ("Hypothesis-generated initial solutions on a shipped ion-association database (1-8 elements of that database, "
-        "log-uniform 1e-9..3 molal, pH 2-12 or charge, pe inside the water stability field, 0-100 C, -water, 18 unit spellings, "
-        "as/gfw, charge- and phase-adjusted elements, valence-specific totals, -redox couples), optionally a second solution and a "
-        "second simulation (REACTION, EQUILIBRIUM_PHASES, MIX, REACTION_TEMPERATURE), 1 atm; a generated USER_PUNCH reads "
-        "LA/LM/LG/MOL/LK_SPECIES of every species of the database whose elements are present; thorough adds a deterministic sweep "
-        "that puts every species of every database into a solution. Non-trivial = >=3 elements besides H/O, >=10 mass-action "
-        "equations evaluated, and (T != 25 C or a non-default unit / charge / phase-adjusted / valence-specific / reacted state); "
-        "distinct by SHA-256 of the case")
-ASSUMPTIONS = ["vp/dbparse.py + vp/formula.py read the database text as the PHREEQC manual defines it (validated: parser coverage "
-               "is reported; LK_SPECIES/LK_PHASE of every parsed species agree with the Python log K on the unchanged tree)",
-               "model constants R = 8.31470 J/mol/K, Tref = 298.15 K, 1 cal = 4.184 J are those of the documented model",
+        "log-uniform 1e-9..3 molal, pH 2-12 or charge, pe inside the water stability field, 0-100 C (LLNL grid respected), -water, "
+        "18 unit spellings, as/gfw, charge- and phase-adjusted elements, valence-specific totals, -redox couples), in half of the "
+        "cases a second simulation (REACTION, EQUILIBRIUM_PHASES, MIX with a second solution, REACTION_TEMPERATURE), 1 atm; a "
+        "generated USER_PUNCH reads LA/LM/LG/MOL/LK_SPECIES of every species of the database whose elements are present and "
+        "SI/SR/LK_PHASE of <= 40 phases; every selected-output row (= one solution calculation) is checked. Thorough adds four "
+        "more databases (Thermoddem, Kinec_v3, sit, pitzer) and a deterministic sweep that puts every species of 17 databases "
+        "into a solution. Non-trivial = >=3 elements besides H/O, >=10 mass-action equations evaluated, and (T != 25 C or a "
+        "non-default unit / charge / phase-adjusted / valence-specific / redox-couple option or a reacted state); distinct by "
+        "SHA-256 of the case")
+ASSUMPTIONS = ["vp/dbparse.py + vp/formula.py read the database text as the PHREEQC manual defines it (databases with parse "
+               "problems are refused; per-database sweep coverage is reported)",
+               "log K(T) at 1 atm: analytic expression if any coefficient is non-zero, else van 't Hoff with R = 8.31470 J/mol/K, "
+               "Tref = 298.15 K, 1 cal = 4.184 J, delta_h default unit kJ; add_logk adds coef * named expression",
                "LA(\"H2O\") and LA(\"e-\") are read from the engine (activity of water, -pe)",
                "initial solutions with valence-specific totals or -redox couples are deliberately not in redox equilibrium: "
-               "equations with an electron carrier are skipped for those elements (counted)",
-               "species reported with LA = -99.99 are not part of the model (documented read-out convention)",
-               "only 1 atm (molar-volume terms vanish); Pitzer/SIT databases are not used"]
+               "equations with an electron carrier (e-, O2, H2) or a species defined through one are skipped for those elements (counted)",
+               "species reported with LA = -99.99 are not part of the model (read-out convention); MOL below 1e-38 counts as zero",
+               "database text with two readings is accepted under either: master species listed with different alkalinities in a "
+               "primary and a secondary line (minteq.dat Fe+3); unbalanced -no_check species without -mole_balance (minteq.v4.dat polysulfides)",
+               "excluded and counted: H/O totals of an initial solution that enters a minor isotope of H/O (iso.dat ISOTOPES layer "
+               "re-labels them after the speciation); total of an element that is foreign to a master species (Thermoddem CN- as N(-5)); "
+               "states with a species above 1000 mol/kgw (discarded)",
+               "only 1 atm (molar-volume terms vanish)"]
 TECHNIQUE = "property-based testing (Hypothesis) against an independent reference evaluation of the database text"
-LEVEL_TEXT = ("Exploration: thousands of generated solutions per run on 10 databases; every mass-action equation, log K, balance sum "
-              "and read-out relation of every species present is re-evaluated in Python from the database text. A deterministic "
-              "sweep (thorough) covers every species of every database at least once. Not a proof: temperatures, compositions and "
-              "reaction steps are sampled.")
+LEVEL_TEXT = ("Exploration: thousands of generated solutions per run on 10 (thorough: 14) databases; every mass-action equation, "
+              "log K, balance sum and read-out relation of every species present is re-evaluated in Python from the database text. "
+              "A deterministic sweep (thorough) covers every species of 17 databases at least once. Not a proof: temperatures, "
+              "compositions and reaction steps are sampled.")
 FLOORS = {"quick": 300, "thorough": 3000}
 SHARDS = {"quick": 8, "thorough": 16}
 BUDGET = {"quick": 800, "thorough": 4000, "replay": 1}
@@ -316,10 +330,10 @@ def temperature_st(inf, with_25=True):
 def solution_st(draw, inf, number, elements=None, max_el=8):
     db = inf.db
     # --- elements
-    if elements is None:
-        els = draw(st.lists(st.sampled_from(inf.totals), min_size=1, max_size=max_el, unique=True))
-    else:
-        els = draw(st.lists(st.sampled_from(elements), min_size=1, max_size=min(max_el, len(elements)), unique=True))
+    pool = inf.totals if elements is None else elements
+    hi = min(max_el, len(pool))
+    n = draw(st.integers(1, hi))          # the number of elements is drawn first so that all sizes are equally likely
+    els = draw(st.lists(st.sampled_from(pool), min_size=n, max_size=hi, unique=True))
     # keep the number of punched species bounded (construction, not rejection)
     while len(els) > 1 and len(inf.species_for(els)) > MAX_SPECIES:
         els = els[:-1]
